@@ -7,6 +7,11 @@ from symx.load import repo
 from checks.c03 import hole_pairs
 
 
+NESTED = ["f'{\'\'\'a\nb\'\'\'}'\n", 'f"{\'\'\'a\nb\'\'\'!r:>9}"\n', "x = f'{f\'\'\'a\n{y}b\'\'\'}'\n", "f'{\"x\"}'\n", "f'{f\"{y}\"}'\n", 'f\'\'\'{"""a\nb"""}\'\'\'\n',
+          "u'a' f'b'\n", "u'a' f'b{c}'\n", "(u'a'\n 'b'\n f'c {d!r:>4} e')\n", "'a' f'b{c}' u'd'\n", "b = u'a' 'b'\n", "f'{a}' u'b'\n", "f\'\'\'a\n{x}b\'\'\'\n", "f\'\'\'{x:>\n}\'\'\'\n",
+          "f'abc\\\n{x}'\n", "f'{x!r}' f'{y!s}' f'{z!a}'\n", "f'{x!r:>{3}}'\n"]
+
+
 def shapes(rng, quick):
     prefixes = ["f", "F", "rf", "fR", "Rf"] if not quick else ["f", "rf", "F"]
     quotes = ["'", '"', "'''", '"""']
@@ -26,6 +31,7 @@ def shapes(rng, quick):
             out.append(c.format(*combo))
     multi = ["f'''a\n{b}\nc'''\n", "f'''{\na\n}'''\n", "f'{a}' \\\n  f'{b}'\n", "x = (f'{a}'\n     f'{b}')\n", "f'''{a:\n>3}'''\n", "f'{f\"{a}\"}'\n", "f'{f\"{a!r:>{3}}\"}'\n"]
     out += multi
+    out += NESTED
     rng.shuffle(out)
     return out
 
